@@ -35,6 +35,7 @@ import ZoektModel.C01.SubstrLemmas
 import ZoektModel.C01.LineLemmas
 import ZoektModel.C01.BTreeLemmas
 import ZoektModel.C01.FullLemmas
+import ZoektModel.C01.WordLemmas
 namespace ZoektModel.C01
 
 /-- **one `evalMatchTree` call** on a consistent tree: the tree stays consistent, its plain value is unchanged, a decided
@@ -509,6 +510,34 @@ example : exTreeA.OkF exCtxA 0 :=
 example : (List.range 3).map (fun d => lineSemC exCtxA (.cons (.sub (mkSub exCtxA false [97, 98, 99] 0 0))
     (.cons (.sub (mkSub exCtxA false [99, 100, 101] 0 0)) .nil)) d) = [true, false, true] := by decide
 example : (List.range 3).filter (fun d => exCtxA.live.getD d false && semF exCtxA d exTreeA) = [0] := by decide
+
+/-- **`word_fastpath_spec`** (L10, the repaired `wordMatchTree.matches`): on every byte string, the `\bLITERAL\b` fast
+    path reports a match iff the literal occurs somewhere with a non-word byte (or the text boundary) on both sides, and
+    every offset it reports is such an occurrence (in particular an occurrence that fails the test no longer hides an
+    overlapping one that passes) -/
+theorem word_fastpath_spec (data word : List Nat) (hw : word ≠ []) :
+    (wordMatches data word ≠ [] ↔ wordSpec data word = true) ∧
+    (∀ x, x ∈ wordMatches data word → wordAt data word x = true) :=
+  wordMatches_spec data word hw
+
+/-- **`word_fastpath_equiv`**: for the literals `regexpToWordMatchTree` now accepts (first and last byte are word bytes),
+    "between non-word bytes" is exactly RE2's `\bLITERAL\b` at that position (`\b` = exactly one neighbour is a word
+    byte), so the fast path decides the same documents as the regexp would -/
+theorem word_fastpath_equiv (data word : List Nat) (hw : word ≠ [])
+    (hfirst : isWordByte (word.getD 0 0) = true) (hlast : isWordByte (word.getD (word.length - 1) 0) = true) :
+    (wordMatches data word ≠ [] ↔ ∃ p, p ∈ List.range (data.length + 1) ∧ reWordAt data word p = true) := by
+  rw [(wordMatches_spec data word hw).1]
+  simp only [wordSpec, List.any_eq_true]
+  constructor
+  · intro ⟨p, hp, h⟩; exact ⟨p, hp, by rw [word_boundary_equiv data word p hw hfirst hlast]; exact h⟩
+  · intro ⟨p, hp, h⟩; exact ⟨p, hp, by rw [← word_boundary_equiv data word p hw hfirst hlast]; exact h⟩
+
+/-! non-vacuity: "xfoo-foo-foo" and the word "foo-foo": the occurrence at 1 fails the boundary test, the overlapping one
+    at 5 passes; "a-foo b" and the word "-foo" (not eligible: `\b-foo\b` matches at 1, the byte test does not) -/
+example : wordMatches [120, 102, 111, 111, 45, 102, 111, 111, 45, 102, 111, 111] [102, 111, 111, 45, 102, 111, 111] = [5] := by
+  decide
+example : reWordAt [97, 45, 102, 111, 111, 32, 98] [45, 102, 111, 111] 1 = true ∧
+    wordAt [97, 45, 102, 111, 111, 32, 98] [45, 102, 111, 111] 1 = false := by decide
 
 /-! non-vacuity: a shard of 5 documents (document 3 dead), tree `and[doc-predicate, not(regexp verdicts), or[branch, none]]` -/
 def exCtx : Ctx := ⟨[[97], [98], [99], [100], [101]], [[], [], [], [], []], [true, true, true, false, true]⟩
